@@ -263,8 +263,8 @@ structure BasicWord (w : String) (a b : String) : Prop where
   notTab : tabOffset w = none
   notCue : isCueStarting w = false
   notBs : (w == "94a1") = false
-  first : character (w.take 2).toString = some a
-  second : character (w.drop 2).toString = some b
+  first : character (hiByte w) = some a
+  second : character (loByte w) = some b
 
 theorem buf_setBuf (r : Reader) (c : Creator) : (r.setBuf c).buf = c := by
   cases h : r.active <;> simp [Reader.setBuf, Reader.buf, h]
